@@ -95,7 +95,13 @@ var registry = map[string]*property{}
 
 func register(p *property) { registry[p.ID] = p }
 
+// deferredRegistrations run once at the start of main, after every property has registered.
+var deferredRegistrations []func()
+
 func main() {
+	for _, f := range deferredRegistrations {
+		f()
+	}
 	prop := flag.String("property", "", "property id (C01..C20) or 'all'")
 	tier := flag.String("tier", "quick", "quick|thorough")
 	repo := flag.String("repo", "/repo", "repository to analyse")
